@@ -793,9 +793,23 @@ def run_drivers(rep, prog):
             vc = single_assignments(fn).get('vars_to_check')
             cc = [c for c in own_nodes(fn) if isinstance(c, ast.Call) and (dotted(c.func) or '').startswith('_%s_const_params' % name.replace('_pop', '_pop').replace('_pops', '_pops'))]
             cc = [c for c in own_nodes(fn) if isinstance(c, ast.Call) and (dotted(c.func) or '').endswith('_const_params')]
-            if vc is None or len(cc) != 1:
+            # the collection whose members are tested with numpy.isscalar: the iterable of a comprehension / generator whose element
+            # is isscalar(<its variable>) - a display, or a name bound once to a display
+            sing_d = single_assignments(fn)
+            disp = None
+            for comp in own_nodes(fn):
+                if isinstance(comp, (ast.ListComp, ast.GeneratorExp)) and len(comp.generators) == 1 and isinstance(comp.elt, ast.Call) and (dotted(comp.elt.func) or '').endswith('isscalar') \
+                        and len(comp.elt.args) == 1 and ast.unparse(comp.elt.args[0]) == ast.unparse(comp.generators[0].target):
+                    itx = comp.generators[0].iter
+                    if isinstance(itx, ast.Name):
+                        itx = sing_d.get(itx.id)
+                    if isinstance(itx, (ast.Tuple, ast.List)):
+                        disp = itx
+            if disp is None and isinstance(vc, (ast.Tuple, ast.List)):
+                disp = vc
+            if disp is None or len(cc) != 1:
                 raise AnalysisError('%s: constant dispatch not found' % name)
-            checked = {ast.unparse(e) for e in vc.elts}
+            checked = {ast.unparse(e) for e in disp.elts}
             callee = prog.resolve_call(im, cc[0], scope=fn)
             b, problems = bind_call(callee, cc[0])
             fwd = {p for p in b if re.fullmatch(r'(nu|gamma|h)\d?|m\d\d|theta0|beta', p)}
